@@ -1,6 +1,8 @@
 import NimaVerif.Model.Gate
 import NimaVerif.Lemmas.Edit
+import NimaVerif.Lemmas.Cli
 import NimaVerif.Gen.Gate
+import NimaVerif.Gen.Cli
 /-!
 # C07 — sources with syntax errors are passed through untouched and never edited
 
@@ -15,6 +17,12 @@ attribute [local instance] NameCmp.spelled
     `RawExpression.rebuild`, `NixSourceCode.rebuild`, value checks first in `set_value`,
     no `case RawExpression()` in target resolution). -/
 theorem tie_gate : Gen.gateShape = some expectedGateShape := by decide
+
+/-- Translator ties for the section "Through the command line": the programs of the three
+    sub-commands in `cli/main.py` are the ones `Cli.cli` interprets (the same ties as `C16.tie_*`). -/
+theorem tie_cli_test : Gen.cliTest = some Cli.testProg := by decide
+theorem tie_cli_set : Gen.cliSet = some Cli.setProg := by decide
+theorem tie_cli_rm : Gen.cliRm = some Cli.rmProg := by decide
 
 /-- Rebuilding a source with a syntax error returns the input byte for byte — including leading
     and trailing whitespace: the gate precedes all trivia code. -/
@@ -75,6 +83,104 @@ theorem erroneous_text (text : Text) (structured : Source) (d : Doc)
   have h : d.noTarget = some .raw := by rw [hd]; exact (flagged text structured).2
   rw [set_refused d h p v, rm_refused d h p]
   exact ⟨rfl, rfl, rfl, rfl⟩
+
+/-! ## Through the command line
+
+The gate composed with the command-line interpreter of `Model/Cli.lean` (the programs of `test`,
+`set`, `rm` are re-extracted from `cli/main.py` on every run and proved equal to the model's in
+`C16.tie_*`). `editLib` is ANY library whose two edit entry points are the modelled `setValue` /
+`removeValue` on the edit code's view `docOf` of a parsed source, with any reading `classify` of the
+VALUE argument and any rendering `render` of an edited document (may raise); its `parse`,
+`containsError`, `rebuild` are arbitrary. The statements hold for every text, both input channels,
+every NPATH and VALUE. -/
+section CommandLine
+open Cli
+variable {σ : Type}
+
+def editLib (base : Lib σ) (docOf : σ → Doc) (classify : Text → ValueArg)
+    (render : Doc → Except Err Text) : Lib σ :=
+  { parse := base.parse
+    containsError := base.containsError
+    rebuild := base.rebuild
+    setValue := fun s p v =>
+      match setValue p (classify v) (docOf s) with
+      | (.ok _, d') => render d'
+      | (.error e, _) => .error e
+    removeValue := fun s p =>
+      match removeValue p (docOf s) with
+      | (.ok _, d') => render d'
+      | (.error e, _) => .error e }
+
+/-- `nima test` on a source the parser flags: `Fail`, exit status 1, no traceback — whatever the
+    rest of the library does, on either channel. -/
+theorem cli_test_fails (lib : Lib σ) (inv : Inv) (t : Text) (s : σ) (hc : inv.content = .ok t)
+    (hp : lib.parse t = .ok s) (he : lib.containsError s = true) :
+    cli lib .test inv = failRes := by
+  rw [cli_test_eq, hc]
+  simp [testClosed, hp, he]
+
+/-- `nima set` on a source that is one raw expression: nothing on stdout, exit status 1, ValueError
+    — for every NPATH and VALUE, and the rendering of an edited document is never reached. -/
+theorem cli_set_refused (base : Lib σ) (docOf : σ → Doc) (classify : Text → ValueArg)
+    (render : Doc → Except Err Text) (inv : Inv) (t : Text) (s : σ) (hc : inv.content = .ok t)
+    (hp : base.parse t = .ok s) (hraw : (docOf s).noTarget = some .raw) :
+    cli (editLib base docOf classify render) .set inv = tracebackRes .value := by
+  rw [cli_set_eq]
+  simp [editClosed, hc, libEdit, editLib, hp, set_refused (docOf s) hraw]
+
+/-- `nima rm` likewise. -/
+theorem cli_rm_refused (base : Lib σ) (docOf : σ → Doc) (classify : Text → ValueArg)
+    (render : Doc → Except Err Text) (inv : Inv) (t : Text) (s : σ) (hc : inv.content = .ok t)
+    (hp : base.parse t = .ok s) (hraw : (docOf s).noTarget = some .raw) :
+    cli (editLib base docOf classify render) .rm inv = tracebackRes .value := by
+  rw [cli_rm_eq]
+  simp [editClosed, hc, libEdit, editLib, hp, rm_refused (docOf s) hraw]
+
+/-- A VALUE that is not exactly one well-formed expression (empty, several, or erroneous) makes
+    `nima set` end silently with ValueError whatever the document and the path. -/
+theorem cli_bad_value_refused (base : Lib σ) (docOf : σ → Doc) (classify : Text → ValueArg)
+    (render : Doc → Except Err Text) (inv : Inv) (t : Text) (s : σ) (hc : inv.content = .ok t)
+    (hp : base.parse t = .ok s) (hv : classify inv.value = .empty ∨ classify inv.value = .invalid) :
+    cli (editLib base docOf classify render) .set inv = tracebackRes .value := by
+  rw [cli_set_eq]
+  rcases hv with hv | hv <;>
+    simp [editClosed, hc, libEdit, editLib, hp, hv, (bad_value_refused inv.npath (docOf s)).1,
+      (bad_value_refused inv.npath (docOf s)).2]
+
+/-- The whole chain for a text tree-sitter flags, seen from the shell: the library's parse is the
+    gate (`fromCstTop true`), so the three sub-commands answer `Fail`/1, silence/1/ValueError,
+    silence/1/ValueError; in particular no byte of the erroneous source, edited or not, reaches
+    stdout through `set` / `rm`. -/
+theorem cli_erroneous_text (base : Lib σ) (docOf : σ → Doc) (classify : Text → ValueArg)
+    (render : Doc → Except Err Text) (inv : Inv) (t : Text) (s : σ) (structured : Source)
+    (hc : inv.content = .ok t) (hp : base.parse t = .ok s)
+    (hflag : base.containsError s = (fromCstTop true t structured).containsError)
+    (hview : (docOf s).noTarget = (fromCstTop true t structured).noTarget) :
+    cli (editLib base docOf classify render) .test inv = failRes ∧
+    cli (editLib base docOf classify render) .set inv = tracebackRes .value ∧
+    cli (editLib base docOf classify render) .rm inv = tracebackRes .value := by
+  have hraw : (docOf s).noTarget = some .raw := by rw [hview]; exact (flagged t structured).2
+  have he : base.containsError s = true := by rw [hflag]; exact (flagged t structured).1
+  exact ⟨cli_test_fails (editLib base docOf classify render) inv t s hc hp he,
+    cli_set_refused base docOf classify render inv t s hc hp hraw,
+    cli_rm_refused base docOf classify render inv t s hc hp hraw⟩
+
+/-- Non-vacuity: a concrete library (the parse IS the gate on a flagged text) and invocation. -/
+def gateLib : Lib Source :=
+  { parse := fun t => .ok (fromCstTop true t ⟨[], [], false⟩)
+    containsError := fun s => s.containsError
+    rebuild := fun s => .ok (s.rebuild (fun _ => []) (fun t _ => t))
+    setValue := fun _ _ _ => .ok []
+    removeValue := fun _ _ => .ok [] }
+
+example : cli (editLib gateLib (fun s => { noTarget := s.noTarget }) (fun _ => .one (.atom []))
+      (fun _ => .ok [])) .set { chan := .file, raw := .ok "{ a = ; }".toList, npath := ['a'], value := ['1'] }
+    = tracebackRes .value :=
+  cli_set_refused gateLib _ _ _ _ "{ a = ; }".toList _ rfl rfl rfl
+
+example : cli gateLib .test { chan := .stdin, raw := .ok "{ a = ; }".toList } = failRes := by decide
+
+end CommandLine
 
 /-! Non-vacuity -/
 example : (fromCstTop true "  { a = ; }\n\n".toList ⟨[], [], false⟩).rebuild (fun _ => []) (fun t _ => t)
